@@ -267,9 +267,9 @@ fn callee<'tcx>(cx: &Cx<'tcx>, owner: DefId, body: &Body<'tcx>, func: &Operand<'
     if let Some((cdid, gargs)) = func.const_fn_def() {
         let mut o = J::obj().put_s("def", cx.path(cdid)).put_b("local", cdid.is_local());
         {
-            use rustc_middle::ty::print::{with_no_trimmed_paths, with_no_visible_paths};
-            let full = with_no_visible_paths!(with_no_trimmed_paths!(tcx.def_path_str_with_args(cdid, gargs)));
-            o = o.put_s("inst", full);
+            use rustc_middle::ty::print::{with_crate_prefix, with_no_trimmed_paths, with_no_visible_paths};
+            let full = with_crate_prefix!(with_no_visible_paths!(with_no_trimmed_paths!(tcx.def_path_str_with_args(cdid, gargs))));
+            o = o.put_s("inst", cx.canon(&full));
         }
         o = o.put(
             "gargs",
